@@ -161,6 +161,8 @@ def show_stmt(s, ind=""):
         return f'{ind}{lhs}place("{s[2]}", {show(s[3])}, {show(s[4])}{props});'
     if k == "prop":
         return f"{ind}{s[1]}.{s[2]} = {show(s[3])};"
+    if k == "replace":     # re-binding an existing Entity variable: name = place(...)
+        return f'{ind}{s[1]} = place("{s[2]}", {show(s[3])}, {show(s[4])});'
     if k == "func":
         ps = ", ".join(f"{t} {n}" for t, n in s[2])
         body = "\n".join(show_stmt(b, ind + "    ") for b in s[3])
@@ -466,7 +468,7 @@ def run(stmts, env: Env, hooks=None):
             ev(s[1], env)
         elif hooks and k in hooks:
             hooks[k](s, env)
-        elif k in ("mem", "write", "latch", "place", "prop", "text"):
+        elif k in ("mem", "write", "latch", "place", "prop", "text", "replace"):
             pass
         else:
             raise ValueError(s)
@@ -547,6 +549,8 @@ def subst_stmts(stmts, consts=None, names=None):
                         subst_expr(s[4], consts, names), s[5]))
         elif k == "prop":
             out.append(("prop", names.get(s[1], s[1]), s[2], subst_expr(s[3], consts, names)))
+        elif k == "replace":
+            out.append(("replace", names.get(s[1], s[1]), s[2], subst_expr(s[3], consts, names), subst_expr(s[4], consts, names)))
         elif k == "expr":
             out.append(("expr", subst_expr(s[1], consts, names)))
         elif k == "for":
